@@ -19,7 +19,14 @@ type State struct {
 	dead    bool
 }
 
+var epochCounter int
+
 func (s *State) clone() *State {
+	if s.epoch == nil {
+		// fix the epoch before branching so that both branches share it
+		epochCounter++
+		s.epoch = Var(fmt.Sprintf("epoch!c%d", epochCounter), SInt)
+	}
 	n := &State{env: make(map[types.Object]*Term, len(s.env)), heap: make(map[string]*Term, len(s.heap)), dead: s.dead, epoch: s.epoch}
 	for k, v := range s.env {
 		n.env[k] = v
